@@ -66,6 +66,7 @@ func (r *Run) Case(id string) {
 // Do executes op on the implementation, logs op and outcome, returns the outcome.
 func (r *Run) Do(op string) (res string) {
 	fields := strings.Fields(op)
+	r.caseOps = append(r.caseOps, op)
 	func() {
 		defer func() {
 			if e := recover(); e != nil {
@@ -79,7 +80,6 @@ func (r *Run) Do(op string) (res string) {
 	res = strings.ReplaceAll(res, "\n", " ")
 	fmt.Fprintf(r.ops, "%s\n", op)
 	fmt.Fprintf(r.out, "%s\n", res)
-	r.caseOps = append(r.caseOps, op)
 	r.nOps++
 	if len(fields) > 0 {
 		r.Hist("op." + fields[0])
